@@ -321,6 +321,9 @@ pub fn run_sdk(case: &Case) -> RunOutput {
         Ok::<(Found, BTreeMap<String, u64>, String), String>((found, extra, format!("b{batch_size}-i{interval}-pk{partitioning_kind}-p{partitions}-g{}-cb{consumer_batch}-ac{auto_commit:?}-inc{incarnations}-n{}", group as u8, total / 10)))
     });
     out.steps = sim.steps();
+    if sim.inner.deferred_writes.get() > 0 {
+        out.extra.insert("file_writes_completed_later".into(), sim.inner.deferred_writes.get());
+    }
     out.sim_micros = sim.inner.final_sim_micros.get();
     out.trace_hash = format!("{:016x}", sim.trace_hash());
     out.multi_choice_steps = sim.inner.multi_choice_steps.get();
